@@ -146,6 +146,12 @@ func c02DisplayOne(c *core.Ctx, dir string, k c02DisplayCase) {
 	if got == want {
 		return
 	}
+	// a finding is believed only if it shows again when the case is executed a second time
+	if again, ok, _ := run(true); !ok || again != got {
+		c.Observe("unreproducible_findings_dropped", "display-flags "+k.Dialect)
+		return
+	}
+	file = drv.DirSnapshot(dir)[d.file]
 	plain, ok, _ := run(false)
 	if !ok {
 		return
